@@ -8,9 +8,14 @@
     bounded lru_bounded evicts_least_recent set_with_room_keeps_all get_after_set
     iter_is_recency_order hit_moves_to_front set_moves_to_front reads_do_not_change
     wf_means inherited_get_misses
+    load_parses_first_on_path served_or_parsed reload_current_partial
+    reload_current_full_fails no_reload_first_version_until_evicted
+    same_object_while_unchanged callback_once_per_parse callback_once_per_load
+    failed_load_is_noop lock_balanced loader_cache_bounded
 -/
 import Genshi.Lemmas.Lru
 import Genshi.Lemmas.LruAbs
+import Genshi.Lemmas.Loader
 namespace Genshi.Props.C15
 open Genshi.Lru
 variable {K V : Type} [DecidableEq K]
@@ -133,7 +138,162 @@ theorem inherited_get_misses :
       contains c 0 = true ∧ inheritedGet c 0 = none := by
   refine ⟨_, _, rfl, by decide, rfl⟩
 
+/-! ## the loader -/
+section Loader
+open Genshi.Loader
+
+/-- A load that parses returns a template made from the file found first on the search path
+    of that call, with the content the file has now (`firstOnPath` is the specification:
+    the first path item under which the name exists). -/
+theorem load_parses_first_on_path (cfg : Cfg) (fs : FS) (s s' : LState) (r : Req) (t : Tmpl)
+    (h : load cfg fs s r = some (s', .ok t)) (hparsed : s'.nextObj = s.nextObj + 1)
+    (hf : r.fault = .none) :
+    ∃ key entries isabs f, resolve cfg.path.isEmpty r = some key ∧
+      searchPath cfg r key = some (entries, isabs) ∧
+      firstOnPath fs key entries = some (t.loc, f) ∧ f.bad = false ∧ t.content = f.content ∧
+      t.obj = s.nextObj := by
+  obtain ⟨key, entries, isabs, f, h1, h2, h3, h4, h5⟩ := load_parses_first h hparsed hf
+  exact ⟨key, entries, isabs, f, h1, h2, h3, h4, by rw [h5], by rw [h5]⟩
+
+/-- A returned template is either the cached object (nothing parsed, no callback) or a
+    template parsed in this call (a fresh object, stored under the key). -/
+theorem served_or_parsed (cfg : Cfg) (fs : FS) (s s' : LState) (r : Req) (t : Tmpl)
+    (h : load cfg fs s r = some (s', .ok t)) :
+    ∃ key, resolve cfg.path.isEmpty r = some key ∧
+    ((alookup key s.cache.items = some t ∧ s'.nextObj = s.nextObj ∧ s'.cbLog = s.cbLog) ∨
+     (t.obj = s.nextObj ∧ s'.nextObj = s.nextObj + 1 ∧
+       alookup key s'.cache.items = if s.cache.cap = 0 then none else some t)) := by
+  obtain ⟨key, hk, hok⟩ := load_ok h
+  refine ⟨key, hk, ?_⟩
+  rcases hok with ⟨hl, _, hs⟩ | ⟨_, _, _, _, _, _, h6, _, _, h9, _, h11⟩
+  · left; rw [hs]; exact ⟨hl, (touched_fields s key).2.1, (touched_fields s key).2.2.1⟩
+  · right
+    refine ⟨h6, h11, ?_⟩
+    rw [h9]
+    simp only [astep, touched_cap]
+    cases hc : s.cache.cap with
+    | zero => simp [alookup]
+    | succ n => simp [alookup]
+
+/-- With automatic reloading, after every history of writes, touches, deletions and loads
+    (every modification with a new mtime), a load returns a template that has the current
+    content of **the file it came from**.
+
+    Full statement (false, known finding C15-shadow; see `reload_current_full_fails`):
+    `… ∃ key entries isabs f, searchPath cfg r key = some (entries, isabs) ∧
+        firstOnPath w.fs key entries = some (t.loc, f) ∧ f.content = t.content`
+    — the file found first on the search path *now*.  Missing: a file created later under an
+    earlier path item (or visible only to a different `relative_to`) is not noticed while the
+    cached template's own file is unchanged. -/
+theorem reload_current_partial (cfg : Cfg) (har : cfg.autoReload = true) (ops : List HOp) (r : Req)
+    (ls' : LState) (t : Tmpl)
+    (h : load cfg (hrun cfg (World.init cfg.cap) ops).1.fs (hrun cfg (World.init cfg.cap) ops).1.ls r
+          = some (ls', .ok t)) :
+    ∃ f, (hrun cfg (World.init cfg.cap) ops).1.fs t.loc = some f ∧ f.content = t.content :=
+  load_current (inv_hrun (inv_init cfg.cap) ops) har h
+
+def shadowCfg : Cfg := { path := [.dir 0 false, .dir 1 false], autoReload := true, cap := 2 }
+def shadowOps : List HOp :=
+  [.write ⟨1, false, 0⟩ 100 false, .load { base := 0 }, .write ⟨0, false, 0⟩ 101 false]
+
+/-- Witness that the full statement fails of the model (and of the code: the same history is
+    the `input` of finding C15-shadow): after `t0` was loaded from directory 1, a `t0` created
+    in directory 0 is first on the path, yet the load returns the cached v100. -/
+theorem reload_current_full_fails :
+    ∃ ls' t, load shadowCfg (hrun shadowCfg (World.init 2) shadowOps).1.fs
+        (hrun shadowCfg (World.init 2) shadowOps).1.ls { base := 0 } = some (ls', .ok t) ∧
+      t.content = 100 ∧ t.loc = ⟨1, false, 0⟩ ∧
+      (firstOnPath (hrun shadowCfg (World.init 2) shadowOps).1.fs ⟨none, false, 0⟩ shadowCfg.path).map
+        (fun p => (p.1, p.2.content)) = some (⟨0, false, 0⟩, 101) := by
+  refine ⟨_, _, rfl, rfl, rfl, rfl⟩
+
+/-- Without automatic reloading a cached template is returned as it is — the same object,
+    nothing parsed, no callback — whatever happened to the files, as long as it is cached. -/
+theorem no_reload_first_version_until_evicted (cfg : Cfg) (har : cfg.autoReload = false)
+    (s : LState) (r : Req) (key : Key) (t : Tmpl)
+    (hk : resolve cfg.path.isEmpty r = some key) (hc : alookup key s.cache.items = some t)
+    (fs : FS) :
+    ∃ s', load cfg fs s r = some (s', .ok t) ∧ s'.nextObj = s.nextObj ∧ s'.cbLog = s.cbLog ∧
+      s'.utd = s.utd ∧ ∀ k, alookup k s'.cache.items = alookup k s.cache.items := by
+  refine ⟨touched s key, load_served hk hc (Or.inl har), ?_, ?_, ?_, alookup_touched s key⟩
+  · exact (touched_fields s key).2.1
+  · exact (touched_fields s key).2.2.1
+  · exact (touched_fields s key).1
+
+/-- With automatic reloading the same object is returned, without parsing, while the file it
+    came from has the mtime it was parsed at. -/
+theorem same_object_while_unchanged (cfg : Cfg) (s : LState) (r : Req) (key : Key) (t : Tmpl)
+    (fs : FS) (loc : Loc) (m : Nat) (f : File)
+    (hk : resolve cfg.path.isEmpty r = some key) (hc : alookup key s.cache.items = some t)
+    (hu : s.utd key = some (.mtime loc m)) (hf : fs loc = some f) (hm : f.mtime = m) :
+    ∃ s', load cfg fs s r = some (s', .ok t) ∧ s'.nextObj = s.nextObj ∧ s'.cbLog = s.cbLog ∧
+      s'.parsed = s.parsed := by
+  have hsc : stillCurrent fs s key = true := by simp [stillCurrent, hu, hf, hm]
+  refine ⟨touched s key, load_served hk hc (Or.inr hsc), ?_, ?_, ?_⟩
+  · exact (touched_fields s key).2.1
+  · exact (touched_fields s key).2.2.1
+  · exact (touched_fields s key).2.2.2.1
+
+/-- The callback has been called exactly once with every template parsed, in order, and no
+    template was parsed twice — after every history. -/
+theorem callback_once_per_parse (cfg : Cfg) (hcb : cfg.hasCallback = true) (ops : List HOp) :
+    (hrun cfg (World.init cfg.cap) ops).1.ls.cbLog = (hrun cfg (World.init cfg.cap) ops).1.ls.parsed ∧
+    (hrun cfg (World.init cfg.cap) ops).1.ls.parsed.Nodup := by
+  have := cbInv_hrun (cfg := cfg) (w := World.init cfg.cap)
+    ⟨fun _ => rfl, List.nodup_nil, by simp [World.init, LState.init]⟩ ops
+  exact ⟨this.same hcb, this.nodup⟩
+
+/-- One load parses at most once, and calls the callback exactly when it parsed. -/
+theorem callback_once_per_load (cfg : Cfg) (fs : FS) (s s' : LState) (r : Req) (res : Res)
+    (h : load cfg fs s r = some (s', res)) :
+    (s'.nextObj = s.nextObj ∧ s'.parsed = s.parsed ∧ s'.cbLog = s.cbLog) ∨
+    (s'.nextObj = s.nextObj + 1 ∧ s'.parsed = s.nextObj :: s.parsed ∧
+      s'.cbLog = if cfg.hasCallback then s.nextObj :: s.cbLog else s.cbLog) := by
+  obtain ⟨_, _, he⟩ := load_effect h
+  exact he.counters
+
+/-- A failing load (missing file, syntax error, callback or load function raising, no search
+    path) leaves the cached templates, `_uptodate` and the lock as they were; the only trace
+    is that the lookup of a cached key counted as a use of it. -/
+theorem failed_load_is_noop (cfg : Cfg) (fs : FS) (s s' : LState) (r : Req) (e : Err)
+    (h : load cfg fs s r = some (s', .err e)) :
+    (∀ k, alookup k s'.cache.items = alookup k s.cache.items) ∧ s'.utd = s.utd ∧ s'.lock = s.lock ∧
+    ∃ key, resolve cfg.path.isEmpty r = some key ∧ s'.cache = (touched s key).cache := by
+  obtain ⟨key, hk, he⟩ := load_effect h
+  obtain ⟨hc, hu⟩ := he.failed e rfl
+  exact ⟨fun k => by rw [hc]; exact alookup_touched s key k, hu, he.lock, key, hk, hc⟩
+
+/-- The lock is released on every exit. -/
+theorem lock_balanced (cfg : Cfg) (fs : FS) (s s' : LState) (r : Req) (res : Res)
+    (h : load cfg fs s r = some (s', res)) : s'.lock = s.lock := by
+  obtain ⟨_, _, he⟩ := load_effect h
+  exact he.lock
+
+/-- After every history the loader holds at most `max_cache_size` templates, under distinct
+    keys (and evicts least recently used first: the cache is the bounded LRU map above, on
+    which `load` only performs `get` and `set`). -/
+theorem loader_cache_bounded (cfg : Cfg) (ops : List HOp) :
+    (hrun cfg (World.init cfg.cap) ops).1.ls.cache.items.length ≤ cfg.cap ∧
+    (akeys (hrun cfg (World.init cfg.cap) ops).1.ls.cache.items).Nodup := by
+  have hi := inv_hrun (cfg := cfg) (inv_init cfg.cap) ops
+  have hc := hrun_cap cfg (World.init cfg.cap) ops
+  have hc' : (hrun cfg (World.init cfg.cap) ops).1.ls.cache.cap = cfg.cap := hc
+  exact ⟨Nat.le_trans hi.awf.1 (Nat.le_of_eq hc'), hi.awf.2⟩
+
+end Loader
+
 /-! ### non-vacuity -/
+section
+open Genshi.Loader
+-- a parse, a cached hit, a reload after a touch, a failing reload that keeps the cache
+example : (hrun ⟨[.dir 0 false], true, 2, true⟩ (World.init 2)
+    [.write ⟨0, false, 0⟩ 100 false, .load { base := 0 }, .load { base := 0 }, .touch ⟨0, false, 0⟩,
+     .load { base := 0 }, .write ⟨0, false, 0⟩ 101 true, .load { base := 0 }]).2 =
+    [none, some (.ok ⟨0, ⟨0, false, 0⟩, 100, 0, 0, false⟩), some (.ok ⟨0, ⟨0, false, 0⟩, 100, 0, 0, false⟩),
+     none, some (.ok ⟨1, ⟨0, false, 0⟩, 100, 0, 0, false⟩), none, some (.err .syntaxError)] := by
+  decide
+end
+
 example : (crun (empty 2 ⟨none, none, 0, 0⟩ : CLru Nat Nat)
       [.set 0 10, .set 1 11, .get 0, .set 2 12, .iter, .get 1]).map (·.2) =
     some [.unit, .unit, .val 10, .unit, .keys [2, 0], .keyError] := by decide
